@@ -140,7 +140,7 @@ func (g *opGen) abstractSelection(t *fedType, depth int) string {
 		parts = append(parts, "... on "+cond+g.deferDir()+" "+g.selection(m, depth-1))
 	}
 	g.forceAlias = saved
-	if depth >= 1 && W.Prob(0.3) {
+	if depth >= 1 && g.s.SharedKeysInOps && W.Prob(0.3) {
 		parts = append(parts, g.mirror(t)...)
 	}
 	if len(parts) == 0 {
@@ -271,7 +271,7 @@ func (g *opGen) selection(typeName string, depth int) string {
 			// not end up under one key).
 			if g.s.safeName(f.Name) && W.Prob(0.5) {
 				merged = true
-			} else if k := sharedKey(f.Type); tt != nil && g.sharedFree(typeName, k, f.Name) && W.Prob(0.4) {
+			} else if k := sharedKey(f.Type); tt != nil && g.s.SharedKeysInOps && g.sharedFree(typeName, k, f.Name) && W.Prob(0.4) {
 				alias = k + ": "
 				merged = true
 			} else {
